@@ -1,5 +1,5 @@
 (* Evaluation of one correspondence case on the machine definition (used by C01/C07/C18/C19 campaigns). *)
-From FJ Require Import Lib.Base Spec.MachineSpec.
+From FJ Require Import Lib.Base Spec.MachineSpec Model.EngPy.
 Local Open Scope N_scope.
 
 (* codes of flipjump.utils.classes.TerminationCause; 6 = watchdog / out of fuel *)
@@ -7,7 +7,9 @@ Definition cause_code (c : cause) : N * N :=
   match c with Looping => (0, 0) | EOFc => (1, 0) | NullIP => (2, 0) | MemErr a => (5, a) | OutOfFuel => (6, 0) end.
 
 Record rcase := mkcase {
-  c_ww : N; c_segs : list (N * N); c_words : list (N * N); c_input : list N; c_fuel : N;
+  c_eng : N;                         (* 0 featured, 1 fast, 2 native *)
+  c_ww : N; c_segs : list (N * N); c_dlen : list N;   (* data length of each segment, as in the file *)
+  c_words : list (N * N); c_input : list N; c_fuel : N;
   e_cause : N; e_ops : N; e_fault : N; e_outn : N; e_outb : list N; e_outv : N;  (* bit count, full bytes, value of the trailing bits *)
   e_last : option (N * list N);      (* ring length k, expected last-ops list (oldest first) *)
   e_mem : list (N * N)               (* expected final words *)
@@ -26,19 +28,50 @@ Definition observe (c : rcase) : robs :=
         (match c.(e_last) with Some (k, _) => rev (firstn (N.to_nat k) s.(hist)) | None => [] end)
         (map (fun p => (fst p, mget0 s.(m) (fst p))) c.(e_mem)).
 
+(* the Reader's representation of the loaded image (fjm_reader.Reader._init_memory):
+   data words and zero tails shorter than 1000 words are dict entries, longer tails are zeros_boundaries *)
+Fixpoint zero_range (pm : mem) (a : N) (n : nat) : mem :=
+  match n with O => pm | S k => zero_range (mset pm a 0) (a + 1) k end.
+Fixpoint py_image (segs : list (N * N)) (dl : list N) (pm : mem) (zbs : list (N * N)) : mem * list (N * N) :=
+  match segs, dl with
+  | (s, l) :: segs', d :: dl' =>
+    let pm1 := zero_range pm s (N.to_nat d) in
+    if l - d <? 1000 then py_image segs' dl' (zero_range pm1 (s + d) (N.to_nat (l - d))) zbs
+    else py_image segs' dl' pm1 (zbs ++ [(s + d, s + l)])
+  | _, _ => (pm, zbs)
+  end.
+Definition py_init (c : rcase) : list (N * N) * pst :=
+  let '(pm0, zbs) := py_image c.(c_segs) c.(c_dlen) (PositiveMap.empty N) [] in
+  let pm := fold_left (fun mm p => mset mm (fst p) (snd p)) c.(c_words) pm0 in
+  (zbs, mkpst 0 pm (bytes_bits c.(c_input)) [] 0 []).
+Definition run_case_py (c : rcase) : cause * pst :=
+  let '(zbs, ps) := py_init c in
+  run_py (if c.(c_eng) =? 0 then featured_step c.(c_ww) zbs else fast_step c.(c_ww) zbs) (N.to_nat c.(c_fuel)) ps.
+Definition observe_py (c : rcase) : robs :=
+  let '(cs, s) := run_case_py c in
+  let '(cc, fa) := cause_code cs in
+  let '(ob, ot) := out_bytes s.(p_out) in
+  mkobs cc s.(p_ops) fa (N.of_nat (length s.(p_out))) ob (bits_val ot)
+        (match c.(e_last) with Some (k, _) => rev (firstn (N.to_nat k) s.(p_hist)) | None => [] end)
+        (map (fun p => (fst p, mget0 s.(p_mem) (fst p))) c.(e_mem)).
+
 Fixpoint list_eqb (a b : list N) : bool :=
   match a, b with [] , [] => true | x :: a', y :: b' => (x =? y) && list_eqb a' b' | _, _ => false end.
 Fixpoint pairs_eqb (a b : list (N * N)) : bool :=
   match a, b with [] , [] => true
   | x :: a', y :: b' => (fst x =? fst y) && (snd x =? snd y) && pairs_eqb a' b' | _, _ => false end.
 
-Definition check_case (c : rcase) : bool :=
-  if c.(e_cause) =? 6 then    (* watchdog expiry: only "does not halt within the fuel" is compared *)
-    match fst (run_case c) with OutOfFuel => true | _ => false end
-  else
-  let o := observe c in
+Definition obs_matches (c : rcase) (o : robs) : bool :=
   (o.(o_cause) =? c.(e_cause)) &&
    ((o.(o_ops) =? c.(e_ops)) && (o.(o_fault) =? c.(e_fault)) &&
     (o.(o_outn) =? c.(e_outn)) && list_eqb o.(o_outb) c.(e_outb) && (o.(o_outv) =? c.(e_outv)) &&
     (match c.(e_last) with Some (_, l) => list_eqb o.(o_last) l | None => true end) &&
     pairs_eqb o.(o_mem) c.(e_mem)).
+
+(* the machine definition against the observed behaviour; for the two Python engines also their
+   transcription (Model/EngPy.v), which Proofs/EngPyProps.v proves equal to the definition *)
+Definition check_case (c : rcase) : bool :=
+  if c.(e_cause) =? 6 then    (* watchdog expiry: only "does not halt within the fuel" is compared *)
+    match fst (run_case c) with OutOfFuel => true | _ => false end
+  else
+    obs_matches c (observe c) && ((2 <=? c.(c_eng)) || obs_matches c (observe_py c)).
